@@ -647,9 +647,10 @@ class RamStorage(Storage):
         return BufferFile(buf, name=name, **kwargs)
 
     def lock(self, name):
-        if name not in self.locks:
-            self.locks[name] = RamLock()
-        return self.locks[name]
+        # dict.setdefault() is atomic, a separate test and assignment is not:
+        # two threads asking for the same lock at the same moment must get the
+        # same lock object
+        return self.locks.setdefault(name, RamLock())
 
     def temp_storage(self, name=None):
         tdir = tempfile.gettempdir()
